@@ -385,6 +385,8 @@ def corr(ctx):
                     ctx.fail(f"factors file of iteration {c['first'] + t} was not written", case)
                     break
                 ff = [F(x) for x in c["filefac"][c["first"] + t]]
+                if t == 0 and case.get("restart") is not None:
+                    ff = ff + [Fr(0)] * (len(cf) - len(ff))   # the file a restart starts from may be shorter: zero padding
                 if ff != cf:
                     ctx.fail(f"factors_iter-{t} on disk differ from the factors of K_list after iteration {t}", case)
                     break
